@@ -377,8 +377,12 @@ def build(case):
             tmp = pym.AssemblePoisson(S("t", d), S("tK"), dom, bc=bc, bcdiagval=1.0)
             tmp.response()
             Kd = tmp.sig_out[0].state.toarray()
-            if not np.all(np.isfinite(Kd)) or np.linalg.cond(Kd) > 1e6:
-                d = np.ones(dom.nel)      # floating / unsupported material: not a solvable design
+            if not np.all(np.isfinite(Kd)) or np.linalg.cond(Kd) > 1e6 or not np.any(Kd - np.diag(np.diag(Kd))):
+                # floating / unsupported material: not a solvable design. A design that leaves no coupling at all (K purely
+                # diagonal) is replaced as well: LinSolve chooses its solver from the first matrix it sees and keeps it
+                # (SolverDiagonal for a diagonal one), so the matrix class has to stay the same over a module's life
+                # (DESIGN 7.3)
+                d = np.ones(dom.nel)
             designs.append(d)
         x, K, u, c = S("x", designs[0].copy()), S("K"), S("u"), S("c")
         f0 = rng.standard_normal(n)
